@@ -380,6 +380,10 @@ func randIntSmallInt(low, high int) (vals.Num, error) {
 		return 0, errs.BadValue{What: "high value",
 			Valid: fmt.Sprint("larger than ", low), Actual: strconv.Itoa(high)}
 	}
+	if high-low <= 0 {
+		// The width of the range does not fit in an int.
+		return randIntBigInt(big.NewInt(int64(low)), big.NewInt(int64(high)))
+	}
 	x := withRand(func(r *rand.Rand) int { return r.Intn(high - low) })
 	return low + x, nil
 }
